@@ -138,6 +138,27 @@ def generate(rng, tier):
             'env': {'listing_seed': rng.randint(0, 99)}}
 
 
+N_SWEEPS_THOROUGH = 600
+SWEEP_RULE = ('for one doctest of a sampled world: every single corrupted answer -- wrong at every point, and missing / extra / '
+              'prepended line at every printing point -- one fault per variant, plus the fault-free run')
+
+
+def sweep(rng, h):
+    cfg = make_cfg(rng)
+    world = gen.gen_world(rng, cfg)
+    ids = gen.doctest_ids(world)
+    dt = rng.choice(ids)
+    base = {'profile': ID, 'world': world, 'plan': [], 'env': {'listing_seed': rng.randint(0, 99)},
+            'ops': [{'op': 'run_obj', 'dt': dt, 'verbose': rng.choice([0, 0, 2]), 'on_error': rng.choice(['return', 'raise'])}]}
+
+    def faults(p):
+        kinds = ['wrong']
+        if p['form'] in PRINT_FORMS or p['form'] in ('emit', 'say', 'emitop'):
+            kinds += ['mute', 'extra_line', 'prepend_line']
+        return [{'kind': k_} for k_ in kinds]
+    return [base] + common.single_fault_variants(base, dt, faults)
+
+
 def check(rec):
     meta = expect.build(rec)
     out = []
